@@ -144,7 +144,7 @@ from gpmc import interp as _ip
 
 
 from gpmc import manyobj as _mo
-SUBCHECKS = [Sub('constants', gen_const, ev_const, chunk=1, floor=1, parallel=False), Sub('forward', gen, ev_row, chunk=24, floor=1000, envs=16), Sub('threads', _tg, _te, chunk=1, floor=3, poison=False, fresh=True, timeout=3600), Sub('many_objects', *_mo.make('C01', 'convert'), chunk=1, floor=3, poison=False, fresh=True, timeout=3600), Sub('callforms', *_cf.make('C01', 'convert'), chunk=1, floor=1, guard=True), Sub('interpreter', *_ip.make('C01', 'convert'), chunk=1, floor=5, poison=False)]
+SUBCHECKS = [Sub('constants', gen_const, ev_const, chunk=1, floor=1, parallel=False), Sub('forward', gen, ev_row, chunk=24, floor=1000, envs=16), Sub('threads', _tg, _te, chunk=1, floor=3, poison=False, fresh=True, timeout=7200), Sub('many_objects', *_mo.make('C01', 'convert'), chunk=1, floor=3, poison=False, fresh=True, timeout=7200), Sub('callforms', *_cf.make('C01', 'convert'), chunk=1, floor=1, guard=True), Sub('interpreter', *_ip.make('C01', 'convert'), chunk=1, floor=5, poison=False)]
 
 
 def bounds(tier, seed):
